@@ -103,6 +103,11 @@ func reportGroup(c *vf.Ctx, r groupResult) {
 }
 
 func reportStress(c *vf.Ctx, r stressResult) {
+	if r.Blind != "" {
+		c.Count("structural_rules_blind", 1)
+		c.Inconclusive("stress run " + strconv.Itoa(r.Cfg.Run) + ": " + r.Blind)
+		return
+	}
 	c.Count("evaluations", 1)
 	c.Count("stress_runs", 1)
 	if r.Cfg.Race {
@@ -221,10 +226,10 @@ func outcomeFromDump(stderr string, pre *outcome) (outcome, bool) {
 	o.ShutdownCalled = true
 	o.ShutdownReturned, o.WaitReturned = true, true
 	for _, g := range gs {
-		if g.Has("workerpool.(*WorkerPool).Shutdown") {
+		if g.Has(pkgWP + "(*WorkerPool).Shutdown") {
 			o.ShutdownReturned = false
 		}
-		if g.Has("sync.(*WaitGroup).Wait") && (g.Has("main.runGated") || g.Has("main.runStress") || g.Has("workerpool.(*WorkerPool).Start")) {
+		if g.Has("sync.(*WaitGroup).Wait") && (g.Has("main.runGated") || g.Has("main.runStress") || g.Has(pkgWP+"(*WorkerPool).Start")) {
 			o.WaitReturned = false
 		}
 	}
